@@ -94,8 +94,8 @@ type tokGen struct {
 
 func (t *tokGen) tok() string {
 	t.next++
-	if t.next >= 1001 && t.next <= 1010 { // reserved for the typed nils, the error-typed and the Action-typed payloads, pointers to slices
-		t.next = 1011
+	if t.next >= 1001 && t.next <= 1011 { // reserved for the typed nils, the error-typed and the Action-typed payloads, pointers to slices
+		t.next = 1012
 	}
 	return "t" + strconv.Itoa(t.next)
 }
@@ -107,7 +107,7 @@ func (t *tokGen) val() string {
 		return "t0"
 	}
 	if t.r.chance(6) { // a typed nil (nil pointer / nil map / nil chan): must travel as it is, not as untyped nil
-		return "t" + strconv.Itoa(1001+t.r.intn(10)) // … or a pointer to a slice (1009, 1010), or a value whose type implements error (1005, 1006), or an Action-typed value (1007, 1008)
+		return "t" + strconv.Itoa(1001+t.r.intn(11)) // … or a pointer to a slice (1009, 1010), a channel (1011), or a value whose type implements error (1005, 1006), or an Action-typed value (1007, 1008)
 	}
 	if t.r.chance(7) { // a flyt.Result used as an ordinary payload value (sometimes one holding another Result)
 		if t.r.chance(25) {
@@ -386,7 +386,7 @@ func batchItemsPrep(t *tokGen, shape string, n int) string {
 		case "single":
 			// a non-slice value (token kind 5 is a slice, which ToSlice would spread) — a POINTER to a slice is one
 			if t.r.chance(30) {
-				parts = append(parts, "t"+strconv.Itoa(1009+t.r.intn(2)))
+				parts = append(parts, "t"+strconv.Itoa(1009+t.r.intn(3))) // … or a channel (1011)
 				continue
 			}
 			t.next++
